@@ -215,7 +215,7 @@ def rule_R1(text, counts):
     """remove logging statements: print(..); println!(..); ic_cdk::println!(..); ic_cdk::print(..);"""
     while True:
         m_ = mask(text)
-        m = re.search(r"(?m)^([ \t]*)(?:ic_cdk::(?:api::)?)?(?:print|println!|eprintln!|print!)\s*\(", m_)
+        m = re.search(r"(?m)^([ \t]*)(?:ic_cdk::(?:api::)?|runtime::|crate::runtime::)?(?:print|println!|eprintln!|print!)\s*\(", m_)
         if not m:
             # expression position (e.g. a match arm): the macro call has type (), replace it by ()
             m2 = re.search(r"\b(?:ic_cdk::(?:api::)?)?(?:println!|eprintln!|print!)\s*\(", m_)
